@@ -282,6 +282,47 @@ Proof.
   apply limit_disclosure_derives. rewrite <- C. exact W.
 Qed.
 
+Definition verify_with (p : defn) (disable : bool) (x : vp) (maps : list mapping) : mres :=
+  match matched_creds p disable (vp_creds x) maps [] with
+  | MOk l => match eval_requirements Fixed p (map fst l) with None => MOk l | Some e => e end
+  | e => e
+  end.
+
+(* acceptance does not depend on the order in which the descriptor-map entries are walked *)
+Lemma verifier_accepts_gen : forall p creds x disable maps',
+  NoDup (map d_id (p_descs p)) -> unique_ids creds ->
+  (disable = false -> forall d, In d (p_descs p) -> d_schema d <> []) ->
+  create_vp Fixed p creds = COk x ->
+  (forall mp, In mp maps' <-> In mp (vp_map x)) ->
+  exists l, verify_with p disable x maps' = MOk l /\ l <> [] /\
+    forall id c, In (id, c) l ->
+      exists d w, find_desc p id = Some d /\ derives Fixed p creds d w /\ c = w_cred w.
+Proof.
+  intros p creds x disable maps' ND U Hs H Pm.
+  destruct (create_vp_spec p creds x U H) as [r [sel V]].
+  pose proof (vs_good _ _ _ _ _ V) as G.
+  destruct (matched_creds_ok p disable (vp_creds x) maps' []) as [l [E [A B]]].
+  { intros mp Hmp. apply Pm in Hmp. destruct (vs_maps _ _ _ _ _ V mp Hmp) as [c [N Fs]].
+    destruct (sel_derives p creds sel _ _ G Fs) as [d [w [F [I [D Ec]]]]].
+    exists d, c. split; [exact F|]. split; [exact N|].
+    destruct disable; [apply orb_true_r|]. rewrite orb_false_r. subst c.
+    eapply derives_schema; [exact D | apply Hs; auto]. }
+  assert (Ids : forall id, In id (map fst l) <-> In id (map m_desc sel)).
+  { intros id. rewrite A. split.
+    - intros [[]|[mp [M1 M2]]]. apply Pm in M1. destruct (vs_maps _ _ _ _ _ V mp M1) as [c [_ [m [w [M [_ [E1 _]]]]]]].
+      subst id. rewrite E1. apply in_map. exact M.
+    - intros Hin. apply in_map_iff in Hin as [m [E1 M]]. right.
+      destruct (vs_cov _ _ _ _ _ V m M) as [mp [M1 M2]]. exists mp. split; [apply Pm; exact M1 | congruence]. }
+  exists l. unfold verify_with. rewrite E.
+  rewrite (eval_requirements_ok p r (map m_desc sel) (map fst l) ND (vs_req _ _ _ _ _ V) (vs_sat _ _ _ _ _ V) Ids).
+  split; [reflexivity|]. split.
+  - intros El. subst l. destruct sel as [|m t] eqn:Es; [exact (vs_ne _ _ _ _ _ V eq_refl)|].
+    assert (In (m_desc m) (map fst (@nil (N * cred)))) by (apply Ids; left; reflexivity). contradiction.
+  - intros id c Hin. apply B in Hin as [[]|[mp [M1 [M2 M3]]]]. apply Pm in M1.
+    destruct (vs_maps _ _ _ _ _ V mp M1) as [c' [N Fs]]. assert (c' = c) by congruence. subst c'. subst id.
+    destruct (sel_derives p creds sel _ _ G Fs) as [d [w [F [_ [D Ec]]]]]. exists d, w. auto.
+Qed.
+
 Lemma verifier_accepts_lemma : forall p creds x disable,
   NoDup (map d_id (p_descs p)) -> unique_ids creds ->
   (disable = false -> forall d, In d (p_descs p) -> d_schema d <> []) ->
@@ -291,28 +332,72 @@ Lemma verifier_accepts_lemma : forall p creds x disable,
       exists d w, find_desc p id = Some d /\ derives Fixed p creds d w /\ c = w_cred w.
 Proof.
   intros p creds x disable ND U Hs H.
+  apply (verifier_accepts_gen p creds x disable (vp_map x) ND U Hs H). intros mp. tauto.
+Qed.
+
+Lemma by_presentation_in : forall n maps mp,
+  (forall m, In m maps -> mp_idx m < n) -> (In mp (by_presentation n maps) <-> In mp maps).
+Proof.
+  intros n maps mp Hb. unfold by_presentation. rewrite in_flat_map. split.
+  - intros [i [_ Hi]]. apply filter_In in Hi. tauto.
+  - intros Hin. exists (mp_idx mp). split; [apply in_seq; specialize (Hb mp Hin); lia|].
+    apply filter_In. split; [exact Hin | apply Nat.eqb_refl].
+Qed.
+
+(* CreateVPArray + Match with the merged submission *)
+Lemma verifier_accepts_merged_lemma : forall p creds x disable,
+  NoDup (map d_id (p_descs p)) -> unique_ids creds ->
+  (disable = false -> forall d, In d (p_descs p) -> d_schema d <> []) ->
+  create_vp Fixed p creds = COk x ->
+  exists l, verifier_match_merged Fixed p disable x = MOk l /\ l <> [] /\
+    forall id c, In (id, c) l ->
+      exists d w, find_desc p id = Some d /\ derives Fixed p creds d w /\ c = w_cred w.
+Proof.
+  intros p creds x disable ND U Hs H.
+  apply (verifier_accepts_gen p creds x disable (by_presentation (length (vp_creds x)) (vp_map x)) ND U Hs H).
+  intros mp. apply by_presentation_in. intros m Hm.
   destruct (create_vp_spec p creds x U H) as [r [sel V]].
-  pose proof (vs_good _ _ _ _ _ V) as G.
-  destruct (matched_creds_ok p disable (vp_creds x) (vp_map x) []) as [l [E [A B]]].
-  { intros mp Hmp. destruct (vs_maps _ _ _ _ _ V mp Hmp) as [c [N Fs]].
-    destruct (sel_derives p creds sel _ _ G Fs) as [d [w [F [I [D Ec]]]]].
-    exists d, c. split; [exact F|]. split; [exact N|].
-    destruct disable; [apply orb_true_r|]. rewrite orb_false_r. subst c.
-    eapply derives_schema; [exact D | apply Hs; auto]. }
-  assert (Ids : forall id, In id (map fst l) <-> In id (map m_desc sel)).
-  { intros id. rewrite A. split.
-    - intros [[]|[mp [M1 M2]]]. destruct (vs_maps _ _ _ _ _ V mp M1) as [c [_ [m [w [M [_ [E1 _]]]]]]].
-      subst id. rewrite E1. apply in_map. exact M.
-    - intros Hin. apply in_map_iff in Hin as [m [E1 M]]. right.
-      destruct (vs_cov _ _ _ _ _ V m M) as [mp [M1 M2]]. exists mp. split; [exact M1 | congruence]. }
-  exists l. unfold verifier_match. rewrite E.
-  rewrite (eval_requirements_ok p r (map m_desc sel) (map fst l) ND (vs_req _ _ _ _ _ V) (vs_sat _ _ _ _ _ V) Ids).
-  split; [reflexivity|]. split.
-  - intros El. subst l. destruct sel as [|m t] eqn:Es; [exact (vs_ne _ _ _ _ _ V eq_refl)|].
-    assert (In (m_desc m) (map fst (@nil (N * cred)))) by (apply Ids; left; reflexivity). contradiction.
-  - intros id c Hin. apply B in Hin as [[]|[mp [M1 [M2 M3]]]].
-    destruct (vs_maps _ _ _ _ _ V mp M1) as [c' [N Fs]]. assert (c' = c) by congruence. subst c'. subst id.
-    destruct (sel_derives p creds sel _ _ G Fs) as [d [w [F [_ [D Ec]]]]]. exists d, w. auto.
+  destruct (vs_maps _ _ _ _ _ V m Hm) as [c [N _]]. apply nth_error_Some. congruence.
+Qed.
+
+(* MatchSubmissionRequirement: every credential it reports under a descriptor is (the disclosed form of) a holder
+   credential satisfying that descriptor *)
+Lemma msr_sound_lemma : forall v p creds apply out id cs c,
+  msr v p creds apply = Some out -> In (id, cs) out -> In c cs ->
+  exists d, d_id d = id /\ In d (p_descs p) /\
+    if apply then exists w, derives v p creds d w /\ c = w_cred w
+    else exists i, nth_error creds i = Some c /\ sat_desc d c.
+Proof.
+  intros v p creds apply out id cs c H Hin Hc. unfold msr in H.
+  assert (S1 : forall descs s l, sreq_descs descs s = Some l -> forall d, In d l -> In d descs).
+  { intros descs. fix IH 1. intros [a c0 mn mx g|a c0 mn mx ss] l Hs d Hd; simpl in Hs.
+    - destruct (filter (fun d0 => memN g (d_groups d0)) descs) eqn:E; [discriminate|]. inversion Hs; subst.
+      rewrite <- E in Hd. apply filter_In in Hd. tauto.
+    - revert l Hs d Hd. induction ss as [|s0 st IHs]; intros l Hs d Hd; [inversion Hs; subst; contradiction|].
+      destruct (sreq_descs descs s0) as [a1|] eqn:E1; [|discriminate].
+      match type of Hs with match ?g with _ => _ end = _ => destruct g as [b1|] eqn:E2; [|discriminate] end.
+      inversion Hs; subst. apply in_app_or in Hd as [Hd|Hd]; [eapply IH; eauto | eapply IHs; eauto]. }
+  assert (S2 : forall descs l ds, sreqs_descs descs l = Some ds -> forall d, In d ds -> In d descs).
+  { intros descs l. induction l as [|s0 st IHs]; intros ds Hs d Hd; simpl in Hs; [inversion Hs; subst; contradiction|].
+    destruct (sreq_descs descs s0) as [a1|] eqn:E1; [|discriminate].
+    destruct (sreqs_descs descs st) as [b1|] eqn:E2; [|discriminate].
+    inversion Hs; subst. apply in_app_or in Hd as [Hd|Hd]; [eapply S1; eauto | eapply IHs; eauto]. }
+  assert (Tail : forall ds, (forall d, In d ds -> In d (p_descs p)) ->
+                 out = map (msr_one v p (index_creds 0 creds) apply) ds ->
+                 exists d, d_id d = id /\ In d (p_descs p) /\
+                   if apply then exists w, derives v p creds d w /\ c = w_cred w
+                   else exists i, nth_error creds i = Some c /\ sat_desc d c).
+  { intros ds Hds Hout. subst out. apply in_map_iff in Hin as [d [E Hd]]. unfold msr_one in E. inversion E; subst id cs.
+    exists d. split; [reflexivity|]. split; [apply Hds; exact Hd|].
+    destruct apply.
+    - apply in_map_iff in Hc as [w [Ew Hw]]. exists w. split; [apply limit_disclosure_derives; exact Hw | auto].
+    - apply in_map_iff in Hc as [[i c'] [Ec Hic]]. simpl in Ec. subst c'.
+      apply match_descriptor_sub in Hic as [H1 H2]. apply index_creds_nth in H1 as [_ H1]. rewrite Nat.sub_0_r in H1.
+      exists i. split; [exact H1 | exact H2]. }
+  destruct (p_reqs p) as [|s0 st] eqn:Er.
+  - inversion H. apply (Tail (p_descs p)); auto.
+  - destruct (sreqs_descs (p_descs p) (s0 :: st)) as [ds|] eqn:Ed; [|discriminate].
+    inversion H. apply (Tail ds); auto. intros d Hd. eapply S2; eauto.
 Qed.
 
 (* every credential of the presentation stands under a descriptor and derives from a credential satisfying it *)
